@@ -150,11 +150,13 @@ structure Cfg where
   slice : Option Slice        -- `SliceBuilder.slice`
   ctx : Ctx
   tok : Tok
+  hist : List Tok := []       -- ghost: tokens shifted so far, most recent first
 deriving Inhabited
 
 structure ParseResult where
   tree : Tree
   slice : Option Slice
+  hist : List Tok := []
 deriving Inhabited
 
 inductive StepOut where
@@ -165,14 +167,14 @@ deriving Inhabited
 
 def topState (st : List StackItem) : Option Nat := st.head?.map (·.state)
 
-def liftTok (c : Cfg) (stack : List StackItem) (res : List Tree) (slice : Option Slice)
+def liftTok (hist : List Tok) (stack : List StackItem) (res : List Tree) (slice : Option Slice)
     (r : Ctx × Outcome Tok) (keepLay : Option (Option Slice)) : StepOut :=
   match r with
   | (ctx, .ok tk) =>
     let ctx := match keepLay with
       | some l => { ctx with lay := l }
       | none => ctx
-    .next { c with stack := stack, res := res, slice := slice, ctx := ctx, tok := tk }
+    .next ⟨stack, res, slice, ctx, tk, hist⟩
   | (ctx, .err e) => .stop ctx (.err e)
   | (ctx, .panic s) => .stop ctx (.panic s)
   | (ctx, .fuel) => .stop ctx .fuel
@@ -180,6 +182,18 @@ def liftTok (c : Cfg) (stack : List StackItem) (res : List Tree) (slice : Option
 def firstLay : Tree → Option Slice
   | .leaf _ _ _ l => l
   | .node _ _ l _ => l
+
+/-- span of a reduction (`ParseStack::pop_states`, parser.rs:95-112): `removed` top first -/
+def reduceSpan (removed : List StackItem) (ctxSpan : Span) : Span :=
+  match removed.getLast?, removed.head? with
+  | some first, some last => ⟨first.span.s, last.span.e⟩
+  | _, _ => ⟨ctxSpan.s, ctxSpan.s⟩
+
+/-- layout of a nonterminal node = layout of its first child (`TreeBuilder::reduce_action`) -/
+def childrenLay (children : List Tree) : Option Slice :=
+  match children.head? with
+  | some ch => firstLay ch
+  | none => none
 
 /-- one iteration of the loop in `parse_with_context` (parser.rs:342-417) -/
 def step (env : Env) (nt : Ctx → Ctx × Outcome Tok) (c : Cfg) : StepOut :=
@@ -196,7 +210,7 @@ def step (env : Env) (nt : Ctx → Ctx × Outcome Tok) (c : Cfg) : StepOut :=
       let ctx := { c.ctx with span := sp, pos := newPos, state := s' }
       let stack := ⟨s', sp⟩ :: c.stack
       let res := Tree.leaf c.tok.kind c.tok.span c.tok.val ctx.lay :: c.res
-      liftTok c stack res c.slice (nt ctx) none
+      liftTok (c.tok :: c.hist) stack res c.slice (nt ctx) none
     | .reduce p len =>
       if c.stack.length < len then .stop c.ctx (.panic "split_off")
       else
@@ -205,10 +219,7 @@ def step (env : Env) (nt : Ctx → Ctx × Outcome Tok) (c : Cfg) : StepOut :=
       match topState below with
       | none => .stop c.ctx (.panic "stack.last().unwrap()")
       | some fromState =>
-      let sp : Span :=
-        match removed.getLast?, removed.head? with
-        | some first, some last => ⟨first.span.s, last.span.e⟩
-        | _, _ => ⟨c.ctx.span.s, c.ctx.span.s⟩
+      let sp : Span := reduceSpan removed c.ctx.span
       match env.g.prods[p]? with
       | none => .stop c.ctx (.panic "prod.into()")
       | some pr =>
@@ -220,17 +231,15 @@ def step (env : Env) (nt : Ctx → Ctx × Outcome Tok) (c : Cfg) : StepOut :=
       if c.res.length < len then .stop c.ctx (.panic "res_stack.split_off")
       else
       let children := (c.res.take len).reverse
-      let lay := match children.head? with
-        | some ch => firstLay ch
-        | none => none
+      let lay := childrenLay children
       let res := Tree.node p sp lay (TreeList.ofList children) :: c.res.drop len
       let slice : Option Slice := some (sp.s.pos, sp.e.pos - sp.s.pos)
       let ctx := { c.ctx with span := ctxSpan, state := s' }
-      liftTok c stack res slice (nt ctx) (some c.ctx.lay)
+      liftTok c.hist stack res slice (nt ctx) (some c.ctx.lay)
     | .accept =>
       match c.res with
       | [] => .stop c.ctx (.panic "res_stack.pop().unwrap()")
-      | tr :: _ => .done c.ctx ⟨tr, c.slice⟩
+      | tr :: _ => .done c.ctx ⟨tr, c.slice, c.hist⟩
 
 def runLoop (env : Env) (nt : Ctx → Ctx × Outcome Tok) : Nat → Cfg → Ctx × Outcome ParseResult
   | 0, c => (c.ctx, .fuel)
@@ -245,7 +254,7 @@ def parseWith (env : Env) (nt : Ctx → Ctx × Outcome Tok) (start : Nat) (ctx :
     Ctx × Outcome ParseResult :=
   let stack := [StackItem.mk start ctx.span]
   match nt ctx with
-  | (ctx, .ok tk) => runLoop env nt fuel ⟨stack, [], none, ctx, tk⟩
+  | (ctx, .ok tk) => runLoop env nt fuel ⟨stack, [], none, ctx, tk, []⟩
   | (ctx, .err e) => (ctx, .err e)
   | (ctx, .panic s) => (ctx, .panic s)
   | (ctx, .fuel) => (ctx, .fuel)
